@@ -212,3 +212,442 @@ Section AssocL.
   Proof. intros ND. unfold has. now rewrite lookup_remove_same. Qed.
 End AssocL.
 
+
+(* positional forms: where the entry sits *)
+Lemma assign_split {V} k (v : V) l :
+  has k l = true ->
+  exists l1 v0 l2, l = l1 ++ (k, v0) :: l2 /\ assign k v l = l1 ++ (k, v) :: l2 /\ ~ In k (map fst l1).
+Proof.
+  unfold has. induction l as [|[k' v'] l IH]; cbn; [discriminate|].
+  destruct (str_eqb k' k) eqn:E.
+  - intros _. apply str_eqb_eq in E. subst. exists [], v', l. repeat split. intros [].
+  - intros H. destruct (IH H) as (l1 & v0 & l2 & A & B & N). exists ((k', v') :: l1), v0, l2.
+    cbn. rewrite A at 1. rewrite B. repeat split. intros [F|F]; [|contradiction].
+    apply str_eqb_neq in E. contradiction.
+Qed.
+
+Lemma remove_split {V} k (l : list (str * V)) :
+  has k l = true ->
+  exists l1 v0 l2, l = l1 ++ (k, v0) :: l2 /\ remove k l = l1 ++ l2 /\ ~ In k (map fst l1).
+Proof.
+  unfold has. induction l as [|[k' v'] l IH]; cbn; [discriminate|].
+  destruct (str_eqb k' k) eqn:E.
+  - intros _. apply str_eqb_eq in E. subst. exists [], v', l. repeat split. intros [].
+  - intros H. destruct (IH H) as (l1 & v0 & l2 & A & B & N). exists ((k', v') :: l1), v0, l2.
+    cbn. rewrite A at 1. rewrite B. repeat split. intros [F|F]; [|contradiction].
+    apply str_eqb_neq in E. contradiction.
+Qed.
+
+(* ================================================================ tags and spellings *)
+
+Definition keys (c : container) : list str := map fst (items c).
+
+Lemma items_with_items c l : items (with_items c l) = l.
+Proof. reflexivity. Qed.
+Lemma mt_with_items c l : mt (with_items c l) = mt c.
+Proof. reflexivity. Qed.
+Lemma with_items_id c : with_items c (items c) = c.
+Proof. now destruct c. Qed.
+
+Lemma tag_str_int z : tag_str (TInt z) = tag_str (TStr (z_to_dec z)).
+Proof. reflexivity. Qed.
+
+(* a decimal string that int() maps to z and str() maps back *)
+Definition canonical (s : str) : bool :=
+  match py_int s with Some z => str_eqb (z_to_dec z) s | None => false end.
+
+Lemma canonical_spec s : canonical s = true -> exists z, py_int s = Some z /\ s = z_to_dec z.
+Proof.
+  unfold canonical. destruct (py_int s) as [z|]; [|discriminate]. intros H.
+  apply str_eqb_eq in H. now exists z.
+Qed.
+
+(* every member of the regenerated FTag table: str(member) is its value, found by name, and the
+   value is a canonical decimal string *)
+Lemma ftag_table_ok :
+  forallb (fun nv => str_eqb (tag_str (TFTag (fst nv))) (snd nv) && canonical (snd nv)) ftag = true.
+Proof. vm_compute. reflexivity. Qed.
+
+Lemma ftag_spelling name v :
+  In (name, v) ftag ->
+  tag_str (TFTag name) = v /\ tag_ok (TFTag name) = true /\
+  exists z, tag_str (TFTag name) = tag_str (TInt z) /\ tag_str (TFTag name) = tag_str (TStr (z_to_dec z)).
+Proof.
+  intros H. pose proof (proj1 (forallb_forall _ _) ftag_table_ok _ H) as G. cbn [fst snd] in G.
+  apply andb_true_iff in G. destruct G as [G1 G2]. apply str_eqb_eq in G1.
+  destruct (canonical_spec _ G2) as (z & Hz & Ez). split; [exact G1|]. split.
+  - unfold tag_ok, key_ok. rewrite G1, Hz. reflexivity.
+  - exists z. cbn [tag_str] in *. rewrite G1. now split.
+Qed.
+
+(* operations see a tag only through str(tag) *)
+Lemma set_spelling t1 t2 v r c : tag_str t1 = tag_str t2 -> c_set t1 v r c = c_set t2 v r c.
+Proof. unfold c_set, tag_ok. now intros ->. Qed.
+Lemma get_spelling t1 t2 d c : tag_str t1 = tag_str t2 -> c_get t1 d c = c_get t2 d c.
+Proof. unfold c_get. now intros ->. Qed.
+Lemma del_spelling t1 t2 c : tag_str t1 = tag_str t2 -> c_del t1 c = c_del t2 c.
+Proof. unfold c_del. now intros ->. Qed.
+Lemma contains_spelling t1 t2 c : tag_str t1 = tag_str t2 -> c_contains t1 c = c_contains t2 c.
+Proof. unfold c_contains. now intros ->. Qed.
+Lemma is_group_spelling t1 t2 c : tag_str t1 = tag_str t2 -> c_is_group t1 c = c_is_group t2 c.
+Proof. unfold c_is_group. now intros ->. Qed.
+Lemma add_group_spelling t1 t2 it idx c : tag_str t1 = tag_str t2 -> c_add_group t1 it idx c = c_add_group t2 it idx c.
+Proof. unfold c_add_group. now intros ->. Qed.
+Lemma set_group_spelling t1 t2 g c : tag_str t1 = tag_str t2 -> c_set_group t1 g c = c_set_group t2 g c.
+Proof. unfold c_set_group. now intros ->. Qed.
+Lemma group_list_spelling t1 t2 c : tag_str t1 = tag_str t2 -> c_get_group_list t1 c = c_get_group_list t2 c.
+Proof. unfold c_get_group_list. now intros ->. Qed.
+Lemma group_by_index_spelling t1 t2 i c :
+  tag_str t1 = tag_str t2 -> c_get_group_by_index t1 i c = c_get_group_by_index t2 i c.
+Proof. unfold c_get_group_by_index. intros H. now rewrite (group_list_spelling _ _ _ H). Qed.
+Lemma find_group_spelling g1 g2 gv g : tag_str g1 = tag_str g2 -> find_group g1 gv g = find_group g2 gv g.
+Proof.
+  intros H. induction g as [|x g IH]; cbn [find_group]; [reflexivity|].
+  rewrite (contains_spelling _ _ _ H), (get_spelling _ _ _ _ H), IH. reflexivity.
+Qed.
+Lemma group_by_tag_spelling t1 t2 g1 g2 gv c :
+  tag_str t1 = tag_str t2 -> tag_str g1 = tag_str g2 ->
+  c_get_group_by_tag t1 g1 gv c = c_get_group_by_tag t2 g2 gv c.
+Proof.
+  unfold c_get_group_by_tag. intros H G. rewrite (group_list_spelling _ _ _ H).
+  destruct (c_get_group_list t2 c); [|reflexivity]. now apply find_group_spelling.
+Qed.
+
+(* ================================================================ set / get / del *)
+
+Lemma set_ok t s r c :
+  tag_ok t = true -> r = true \/ has (tag_str t) (items c) = false ->
+  c_set t (SVal s) r c = (with_items c (assign (tag_str t) (VStr s) (items c)), Ok tt).
+Proof.
+  intros T H. unfold c_set. rewrite T. cbn [negb].
+  destruct H as [->|H]; [reflexivity|]. rewrite H. now rewrite andb_false_r.
+Qed.
+
+Lemma set_inv t v r c c' :
+  c_set t v r c = (c', Ok tt) ->
+  tag_ok t = true /\
+  c' = with_items c (assign (tag_str t)
+                       (match v with SVal s => VStr s | SCls k x => VCls k x end) (items c)).
+Proof.
+  unfold c_set. destruct (tag_ok t); cbn [negb]; [|discriminate]. destruct v as [s|k x].
+  - destruct (negb r && has (tag_str t) (items c)); [discriminate|]. intros H. inversion H. now split.
+  - intros H. inversion H. now split.
+Qed.
+
+(* values read back are the string written, whatever spelling of the tag is used for reading *)
+Lemma get_after_set t t' s r d c c' :
+  c_set t (SVal s) r c = (c', Ok tt) -> tag_str t' = tag_str t -> c_get t' d c' = Ok (RvStr s).
+Proof.
+  intros H E. apply set_inv in H. destruct H as [_ ->]. unfold c_get.
+  rewrite items_with_items, E, lookup_assign_same. reflexivity.
+Qed.
+
+Lemma get_other_after_set t t' v r d c c' :
+  c_set t v r c = (c', Ok tt) -> tag_str t' <> tag_str t -> c_get t' d c' = c_get t' d c.
+Proof.
+  intros H E. apply set_inv in H. destruct H as [_ ->]. unfold c_get.
+  rewrite items_with_items, lookup_assign_other by exact E. reflexivity.
+Qed.
+
+(* a refused set changes nothing, and is refused for exactly two reasons *)
+Lemma set_refused t v r c c' e :
+  c_set t v r c = (c', Exc e) ->
+  c' = c /\
+  ((e = EFIXMessage /\ tag_ok t = false) \/
+   (e = EDuplicatedTag /\ tag_ok t = true /\ r = false /\ has (tag_str t) (items c) = true
+    /\ exists s, v = SVal s)).
+Proof.
+  unfold c_set. destruct (tag_ok t); cbn [negb].
+  - destruct v as [s|k x]; [|discriminate].
+    destruct r; cbn [negb andb]; [discriminate|]. destruct (has (tag_str t) (items c)) eqn:H; [|discriminate].
+    intros G. inversion G; subst. split; [reflexivity|]. right. repeat split. now exists s.
+  - intros G. inversion G; subst. split; [reflexivity|]. now left.
+Qed.
+
+Lemma set_nonint t v r c : tag_ok t = false -> c_set t v r c = (c, Exc EFIXMessage).
+Proof. intros H. unfold c_set. now rewrite H. Qed.
+
+Lemma set_duplicate t s c :
+  tag_ok t = true -> has (tag_str t) (items c) = true -> c_set t (SVal s) false c = (c, Exc EDuplicatedTag).
+Proof. intros T H. unfold c_set. now rewrite T, H. Qed.
+
+(* replace=True keeps the place of the key and everything else *)
+Lemma set_replace_in_place t s c :
+  tag_ok t = true -> has (tag_str t) (items c) = true ->
+  exists l1 v0 l2,
+    items c = l1 ++ (tag_str t, v0) :: l2 /\ ~ In (tag_str t) (map fst l1) /\
+    c_set t (SVal s) true c = (with_items c (l1 ++ (tag_str t, VStr s) :: l2), Ok tt).
+Proof.
+  intros T H. destruct (assign_split (tag_str t) (VStr s) _ H) as (l1 & v0 & l2 & A & B & N).
+  exists l1, v0, l2. repeat split; [exact A|exact N|]. rewrite set_ok by auto. now rewrite B.
+Qed.
+
+Lemma set_replace_keeps_order t s c c' :
+  c_set t (SVal s) true c = (c', Ok tt) -> has (tag_str t) (items c) = true ->
+  keys c' = keys c /\ mt c' = mt c /\
+  forall k, lookup k (items c') = if str_eqb (tag_str t) k then Some (VStr s) else lookup k (items c).
+Proof.
+  intros H E. apply set_inv in H. destruct H as [_ ->]. unfold keys.
+  rewrite items_with_items. split; [now apply assign_keys_existing|]. split; [reflexivity|].
+  intros k. apply lookup_assign.
+Qed.
+
+Lemma set_new_at_end t s r c :
+  tag_ok t = true -> has (tag_str t) (items c) = false ->
+  c_set t (SVal s) r c = (with_items c (items c ++ [(tag_str t, VStr s)]), Ok tt).
+Proof. intros T H. rewrite set_ok by auto. now rewrite assign_new. Qed.
+
+Lemma del_spec t c :
+  c_del t c = if has (tag_str t) (items c)
+              then (with_items c (remove (tag_str t) (items c)), Ok tt) else (c, Exc EKeyError).
+Proof. reflexivity. Qed.
+
+Lemma del_refused t c c' e : c_del t c = (c', Exc e) -> c' = c /\ e = EKeyError /\ c_contains t c = false.
+Proof.
+  unfold c_del, c_contains. destruct (has (tag_str t) (items c)); [discriminate|].
+  intros H. inversion H. now repeat split.
+Qed.
+
+Lemma del_keeps_others t c c' :
+  NoDup (keys c) -> c_del t c = (c', Ok tt) ->
+  keys c' = filter (fun k => negb (str_eqb k (tag_str t))) (keys c) /\ mt c' = mt c /\
+  c_contains t c' = false /\
+  forall k, k <> tag_str t -> lookup k (items c') = lookup k (items c).
+Proof.
+  unfold c_del, c_contains, keys. intros ND. destruct (has (tag_str t) (items c)); [|discriminate].
+  intros H. inversion H; subst. rewrite items_with_items. repeat split.
+  - now apply remove_keys.
+  - now apply has_remove_same.
+  - intros k N. now apply lookup_remove_other.
+Qed.
+
+(* delete, then add again: the key is now last *)
+Lemma del_then_set_at_end t s r c c1 :
+  NoDup (keys c) -> tag_ok t = true -> c_del t c = (c1, Ok tt) ->
+  c_set t (SVal s) r c1 = (with_items c (remove (tag_str t) (items c) ++ [(tag_str t, VStr s)]), Ok tt).
+Proof.
+  intros ND T H. destruct (del_keeps_others _ _ _ ND H) as (_ & _ & G & _).
+  unfold c_del in H. destruct (has (tag_str t) (items c)); [|discriminate]. inversion H; subst.
+  rewrite set_new_at_end; [reflexivity|exact T|exact G].
+Qed.
+
+Lemma contains_spec t c : c_contains t c = true <-> In (tag_str t) (keys c).
+Proof. unfold c_contains, keys. apply has_In. Qed.
+
+Lemma is_group_spec t c :
+  c_is_group t c = match lookup (tag_str t) (items c) with
+                   | None => None | Some (VGrp _) => Some true | Some _ => Some false end.
+Proof. reflexivity. Qed.
+
+(* get distinguishes missing / plain / group *)
+Lemma get_classes t c :
+  c_get t DRaise c = match lookup (tag_str t) (items c) with
+                     | None => Exc ETagNotFound
+                     | Some (VStr s) => Ok (RvStr s)
+                     | Some (VGrp _) => Exc EFIXMessage
+                     | Some (VCls KTagNotFound _) => Exc ETagNotFound
+                     | Some (VCls KRepeating _) => Exc ERepeatingTag
+                     | Some (VCls k x) => Ok (RvCls k x)
+                     end.
+Proof. unfold c_get. destruct (lookup (tag_str t) (items c)) as [[s|g|[] x]|]; reflexivity. Qed.
+
+Lemma get_default t d c :
+  lookup (tag_str t) (items c) = None ->
+  c_get t d c = match d with DRaise => Exc ETagNotFound | DNone => Ok RvNone | DStr s => Ok (RvStr s) end.
+Proof. unfold c_get. now intros ->. Qed.
+
+(* ================================================================ groups *)
+
+Lemma group_list_classes t c :
+  c_get_group_list t c = match lookup (tag_str t) (items c) with
+                         | None => Exc ETagNotFound
+                         | Some (VGrp g) => Ok g
+                         | Some _ => Exc EUnmappedGrp
+                         end.
+Proof.
+  unfold c_get_group_list, c_is_group. cbn [tag_str].
+  destruct (lookup (tag_str t) (items c)) as [[s|g|k x]|]; reflexivity.
+Qed.
+
+Lemma insert_at_split {A} n (x : A) l :
+  exists a b, l = a ++ b /\ insert_at n x l = a ++ x :: b /\ length a = Nat.min n (length l).
+Proof.
+  exists (firstn n l), (skipn n l). split; [symmetry; apply firstn_skipn|]. split; [reflexivity|].
+  apply firstn_length.
+Qed.
+
+(* list.insert with Python's clamping; -1 appends: old items keep their relative order *)
+Lemma py_insert_spec {A} idx (x : A) l :
+  let len := Z.of_nat (length l) in
+  exists a b, l = a ++ b /\ py_insert idx x l = a ++ x :: b /\
+    Z.of_nat (length a) =
+      (if idx =? -1 then len else if 0 <=? idx then Z.min idx len else Z.max 0 (len + idx))%Z.
+Proof.
+  intros len. unfold py_insert. fold len. destruct (idx =? -1)%Z eqn:E1.
+  - exists l, []. rewrite app_nil_r. repeat split.
+  - destruct (0 <=? idx)%Z eqn:E2.
+    + destruct (insert_at_split (Z.to_nat (Z.min idx len)) x l) as (a & b & H1 & H2 & H3).
+      exists a, b. repeat split; [exact H1|exact H2|]. rewrite H3. unfold len in *. lia.
+    + destruct (insert_at_split (Z.to_nat (Z.max 0 (len + idx))) x l) as (a & b & H1 & H2 & H3).
+      exists a, b. repeat split; [exact H1|exact H2|]. rewrite H3. unfold len in *. lia.
+Qed.
+
+Lemma add_group_refused t item idx c c' e : c_add_group t item idx c = (c', Exc e) -> c' = c.
+Proof.
+  unfold c_add_group. destruct item as [it|e'].
+  - destruct (lookup (tag_str t) (items c)) as [[s|g|k x]|]; intros H; now inversion H.
+  - intros H. now inversion H.
+Qed.
+
+Lemma add_group_ok t it idx c :
+  (forall s, lookup (tag_str t) (items c) <> Some (VStr s)) ->
+  (forall k x, lookup (tag_str t) (items c) <> Some (VCls k x)) ->
+  let g := match c_get_group_list t c with Ok g => g | Exc _ => [] end in
+  c_add_group t (Ok it) idx c =
+    (with_items c (assign (tag_str t) (VGrp (py_insert idx it g)) (items c)), Ok tt).
+Proof.
+  intros N1 N2. rewrite group_list_classes. unfold c_add_group.
+  destruct (lookup (tag_str t) (items c)) as [[s|g|k x]|]; try reflexivity.
+  - exfalso. now apply (N1 s).
+  - exfalso. now apply (N2 k x).
+Qed.
+
+Lemma add_group_then_list t it idx c c' :
+  c_add_group t (Ok it) idx c = (c', Ok tt) ->
+  c_get_group_list t c' =
+    Ok (py_insert idx it (match c_get_group_list t c with Ok g => g | Exc _ => [] end))
+  /\ keys c' = (if c_contains t c then keys c else keys c ++ [tag_str t])
+  /\ forall k, k <> tag_str t -> lookup k (items c') = lookup k (items c).
+Proof.
+  unfold c_add_group, c_contains, keys, has. rewrite !group_list_classes.
+  destruct (lookup (tag_str t) (items c)) as [[s|g|k x]|] eqn:L; intros H; inversion H; subst;
+    rewrite items_with_items, lookup_assign_same, assign_keys; unfold has; rewrite L; repeat split;
+    intros k' N; now apply lookup_assign_other.
+Qed.
+
+Lemma set_group_refused t g c c' e :
+  c_set_group t g c = (c', Exc e) ->
+  c' = c /\ ((e = EDuplicatedTag /\ c_contains t c = true) \/ (c_contains t c = false /\ g = Exc e)).
+Proof.
+  unfold c_set_group, c_contains. destruct (has (tag_str t) (items c)).
+  - intros H. inversion H. split; [reflexivity|]. now left.
+  - destruct g as [g|e']; intros H; inversion H. split; [reflexivity|]. now right.
+Qed.
+
+Lemma set_group_ok t g c :
+  c_contains t c = false ->
+  c_set_group t (Ok g) c = (with_items c (items c ++ [(tag_str t, VGrp g)]), Ok tt).
+Proof. unfold c_set_group, c_contains. intros H. rewrite H. now rewrite assign_new. Qed.
+
+Lemma set_group_then_list t g c c' :
+  c_set_group t (Ok g) c = (c', Ok tt) -> c_get_group_list t c' = Ok g /\ keys c' = keys c ++ [tag_str t].
+Proof.
+  unfold c_set_group, keys. destruct (has (tag_str t) (items c)) eqn:E; [discriminate|].
+  intros H. inversion H; subst. rewrite group_list_classes, items_with_items, lookup_assign_same.
+  split; [reflexivity|]. rewrite assign_new by exact E. now rewrite map_app.
+Qed.
+
+(* get_group_by_index: index order, Python's negative indices *)
+Lemma nth_res_ok n g : (n < length g)%nat -> exists x, nth_error g n = Some x /\ nth_res n g = Ok x.
+Proof.
+  intros H. unfold nth_res. destruct (nth_error g n) eqn:E.
+  - now exists c.
+  - apply nth_error_None in E. lia.
+Qed.
+
+Lemma group_by_index_nonneg t idx c g :
+  c_get_group_list t c = Ok g -> (0 <= idx < Z.of_nat (length g))%Z ->
+  exists x, nth_error g (Z.to_nat idx) = Some x /\ c_get_group_by_index t idx c = Ok x.
+Proof.
+  intros G H. unfold c_get_group_by_index. rewrite G.
+  assert ((Z.of_nat (length g) <=? idx)%Z = false) as -> by lia.
+  assert ((0 <=? idx)%Z = true) as -> by lia. apply nth_res_ok. lia.
+Qed.
+
+Lemma group_by_index_negative t idx c g :
+  c_get_group_list t c = Ok g -> (- Z.of_nat (length g) <= idx < 0)%Z ->
+  exists x, nth_error g (Z.to_nat (Z.of_nat (length g) + idx)) = Some x
+            /\ c_get_group_by_index t idx c = Ok x.
+Proof.
+  intros G H. unfold c_get_group_by_index. rewrite G.
+  assert ((Z.of_nat (length g) <=? idx)%Z = false) as -> by lia.
+  assert ((0 <=? idx)%Z = false) as -> by lia.
+  assert ((0 <=? Z.of_nat (length g) + idx)%Z = true) as -> by lia. apply nth_res_ok. lia.
+Qed.
+
+Lemma group_by_index_high t idx c g :
+  c_get_group_list t c = Ok g -> (Z.of_nat (length g) <= idx)%Z ->
+  c_get_group_by_index t idx c = Exc ETagNotFound.
+Proof.
+  intros G H. unfold c_get_group_by_index. rewrite G.
+  assert ((Z.of_nat (length g) <=? idx)%Z = true) as -> by lia. reflexivity.
+Qed.
+
+(* D18: below -len the list index error escapes *)
+Lemma group_by_index_low t idx c g :
+  c_get_group_list t c = Ok g -> (idx < - Z.of_nat (length g))%Z ->
+  c_get_group_by_index t idx c = Exc EIndexError.
+Proof.
+  intros G H. unfold c_get_group_by_index. rewrite G.
+  assert ((Z.of_nat (length g) <=? idx)%Z = false) as -> by lia.
+  assert ((0 <=? idx)%Z = false) as -> by lia.
+  assert ((0 <=? Z.of_nat (length g) + idx)%Z = false) as -> by lia. reflexivity.
+Qed.
+
+Lemma group_by_index_no_group t idx c e :
+  c_get_group_list t c = Exc e -> c_get_group_by_index t idx c = Exc e.
+Proof. intros G. unfold c_get_group_by_index. now rewrite G. Qed.
+
+(* get_group_by_tag: the first item, in index order, whose inner tag holds the value *)
+Definition plain_at (k : str) (x : container) : Prop :=
+  match lookup k (items x) with None | Some (VStr _) => True | Some _ => False end.
+Definition holds (k gv : str) (x : container) : bool :=
+  match lookup k (items x) with Some (VStr s) => str_eqb s gv | _ => false end.
+
+Lemma find_group_plain gt gv g :
+  Forall (plain_at (tag_str gt)) g ->
+  find_group gt gv g = match find (holds (tag_str gt) gv) g with
+                       | Some x => Ok x | None => Exc ETagNotFound end.
+Proof.
+  induction g as [|x g IH]; intros F; cbn [find_group find]; [reflexivity|].
+  inversion F as [|? ? P F']; subst. unfold c_contains, has, c_get, holds, plain_at in *.
+  destruct (lookup (tag_str gt) (items x)) as [[s|g0|k y]|]; try contradiction.
+  - cbn [rval_is]. destruct (str_eqb s gv); [reflexivity|]. now apply IH.
+  - now apply IH.
+Qed.
+
+Lemma find_some_first {A} (f : A -> bool) l x :
+  find f l = Some x -> exists a b, l = a ++ x :: b /\ f x = true /\ Forall (fun y => f y = false) a.
+Proof.
+  induction l as [|y l IH]; cbn; [discriminate|]. destruct (f y) eqn:E.
+  - intros H. inversion H; subst. exists [], l. repeat split; [exact E|constructor].
+  - intros H. destruct (IH H) as (a & b & H1 & H2 & H3). exists (y :: a), b. subst. repeat split; [exact H2|].
+    now constructor.
+Qed.
+
+Lemma group_by_tag_first t gt gv c g :
+  c_get_group_list t c = Ok g -> Forall (plain_at (tag_str gt)) g ->
+  (forall x, c_get_group_by_tag t gt gv c = Ok x ->
+     exists a b, g = a ++ x :: b /\ lookup (tag_str gt) (items x) = Some (VStr gv)
+                 /\ Forall (fun y => lookup (tag_str gt) (items y) <> Some (VStr gv)) a)
+  /\ (c_get_group_by_tag t gt gv c = Exc ETagNotFound <->
+      Forall (fun y => lookup (tag_str gt) (items y) <> Some (VStr gv)) g)
+  /\ (forall e, c_get_group_by_tag t gt gv c = Exc e -> e = ETagNotFound).
+Proof.
+  intros G P. unfold c_get_group_by_tag. rewrite G, (find_group_plain _ _ _ P).
+  assert (HH : forall y, holds (tag_str gt) gv y = true <-> lookup (tag_str gt) (items y) = Some (VStr gv)).
+  { intros y. unfold holds. destruct (lookup (tag_str gt) (items y)) as [[s|g0|k z]|]; split; try discriminate.
+    - intros H. apply str_eqb_eq in H. now subst.
+    - intros H. inversion H. apply str_eqb_refl. }
+  split; [|split].
+  - intros x H. destruct (find (holds (tag_str gt) gv) g) as [x'|] eqn:F; [|discriminate].
+    inversion H; subst. destruct (find_some_first _ _ _ F) as (a & b & H1 & H2 & H3).
+    exists a, b. split; [exact H1|]. split; [now apply HH|].
+    eapply Forall_impl; [|exact H3]. cbn. intros y Hy F'. apply HH in F'. congruence.
+  - destruct (find (holds (tag_str gt) gv) g) as [x'|] eqn:F.
+    + split; [discriminate|]. intros A. exfalso. apply find_some in F. destruct F as [F1 F2].
+      rewrite Forall_forall in A. apply (A _ F1). now apply HH.
+    + split; [|reflexivity]. intros _. apply Forall_forall. intros y Hy F'.
+      apply HH in F'. pose proof (find_none _ _ F _ Hy). congruence.
+  - intros e. destruct (find (holds (tag_str gt) gv) g); intros H; now inversion H.
+Qed.
